@@ -1,7 +1,7 @@
 """R-MODE-FIELD, R-HAS-INSTR, R-EMIT-ORDER: lowering of the plain modes."""
 import re
 
-from vlib.facts import walk, pat_alternatives, peel, place_path, CheckError
+from vlib.facts import walk, pat_alternatives, peel, place_path, CheckError, uncond_before
 from vlib.paths import paths, normal_paths, implied_some_iflets
 from vlib.report import RuleResult
 
@@ -312,4 +312,59 @@ def clear_coherent(F):
     r.count("cleared_modes", n)
     if n < len(modes):
         raise CheckError("clear_instr/has_instr: only %d of %d modes paired" % (n, len(modes)))
+    return r
+
+
+def inject_at_protocol(F):
+    """R-INJECT-AT: every implementation of InjectAt::inject_at selects the requested mode at the requested index before
+    it files the instruction: set_instrument_mode_at(mode, loc) is evaluated on every path that reaches
+    add_instr_at(loc, instr), with the same location value, the `mode` parameter and the `idx` parameter as instr_idx."""
+    r = RuleResult("R-INJECT-AT",
+                   "every InjectAt::inject_at sets the requested mode at the requested instruction on every path before adding the instruction there (set_instrument_mode_at(mode, loc) structurally dominates add_instr_at(loc, instr); loc.instr_idx is the idx parameter)")
+    impls = [f for f in F.fns if f["name"] == "inject_at" and f.get("body") is not None and (f.get("impl_trait") or "").endswith("InjectAt")]
+    if len(impls) < 3:
+        impls = [f for f in F.fns if f["name"] == "inject_at" and f.get("body") is not None]
+    r.count("inject_at_impls", len(impls))
+    for fn in impls:
+        r.analysed.append(fn["path"])
+        ph = {p["pat"].get("name"): p["pat"].get("hid") for p in fn["params"] if p["pat"].get("k") == "Binding"}
+        names = [p["pat"].get("name") for p in fn["params"]]
+        # by position: (self, idx, mode, instr)
+        hid_idx = fn["params"][1]["pat"].get("hid")
+        hid_mode = fn["params"][2]["pat"].get("hid")
+        sets = [c for c in walk(fn["body"]) if c.get("k") == "MethodCall" and c["method"] == "set_instrument_mode_at"]
+        adds = [c for c in walk(fn["body"]) if c.get("k") == "MethodCall" and c["method"] == "add_instr_at"]
+        ok = bool(adds) and bool(sets)
+        why = "no set_instrument_mode_at / add_instr_at call"
+        for A in adds:
+            loc_a = peel(A["args"][0]).get("res", {}).get("hid")
+            good = False
+            for S in sets:
+                d_ok, d_why = uncond_before(fn["body"], S, A)
+                m_ok = peel(S["args"][0]).get("res", {}).get("hid") == hid_mode
+                l_ok = peel(S["args"][1]).get("res", {}).get("hid") == loc_a and loc_a is not None
+                if d_ok and m_ok and l_ok:
+                    good = True
+                elif not d_ok:
+                    why = "set_instrument_mode_at %s add_instr_at" % d_why
+                elif not m_ok:
+                    why = "set_instrument_mode_at is not given the `mode` parameter"
+                else:
+                    why = "mode is set at a different location than the instruction is added to"
+            if not good:
+                ok = False
+            # loc literal: instr_idx := idx parameter
+            if loc_a is not None:
+                for st in walk(fn["body"]):
+                    if st.get("k") == "Let" and st["pat"].get("hid") == loc_a and "init" in st:
+                        lit = peel(st["init"])
+                        if lit.get("k") == "Struct":
+                            fs = {k: peel(v) for k, v in lit["fields"]}
+                            if "instr_idx" in fs and fs["instr_idx"].get("res", {}).get("hid") != hid_idx:
+                                ok, why = False, "the location's instr_idx is not the idx parameter"
+        r.ob(ok, {"impl": fn["path"], "mode_set_before_add": ok})
+        if not ok:
+            r.violate("%s | protocol" % fn["path"], F.loc(fn), "inject_at does not select the requested mode at the requested instruction on every path before filing the instruction: %s (the instruction lands in whatever list was current)" % why)
+    if len(impls) < 3:
+        raise CheckError("expected 3 InjectAt::inject_at implementations, found %d" % len(impls))
     return r
